@@ -310,7 +310,7 @@ var flagKeys = map[string]struct {
 
 var flagKeyNames = []string{"ANSWERED", "DELETED", "DRAFT", "FLAGGED", "SEEN", "UNANSWERED", "UNDELETED", "UNDRAFT", "UNFLAGGED", "UNSEEN"}
 
-func genKey(t *rapid.T, depth int, nmsgs, maxuid uint32) *skey {
+func genKey(t *rapid.T, depth int, nmsgs, maxuid uint32, sizes []int) *skey {
 	n := 16
 	if depth >= 3 {
 		n = 13
@@ -327,7 +327,17 @@ func genKey(t *rapid.T, depth int, nmsgs, maxuid uint32) *skey {
 	case 5:
 		return &skey{kind: "UID", set: genSet(t, maxuid)}
 	case 6:
-		return &skey{kind: []string{"LARGER", "SMALLER"}[pick(t, "sz", 2)], arg: fmt.Sprint([]int{0, 1, 40, 100, 150, 200, 300, 400, 600, 100000}[pick(t, "szv", 10)])}
+		pool := []int{0, 1, 100000}
+		for _, n := range sizes { // the boundaries that matter: sizes of actual messages and their neighbours
+			pool = append(pool, n-1, n, n+1)
+		}
+		kind, v := []string{"LARGER", "SMALLER"}[pick(t, "sz", 2)], pool[pick(t, "szv", len(pool))]
+		if kind == "SMALLER" && v == 0 {
+			// known finding F-C09e: SearchCriteria cannot express SMALLER 0
+			ev.Excluded("F-C09e")
+			v = 1
+		}
+		return &skey{kind: kind, arg: fmt.Sprint(v)}
 	case 7:
 		return &skey{kind: []string{"BEFORE", "ON", "SINCE"}[pick(t, "dk", 3)], arg: searchDays[pick(t, "day", len(searchDays))]}
 	case 8:
@@ -341,11 +351,11 @@ func genKey(t *rapid.T, depth int, nmsgs, maxuid uint32) *skey {
 	case 12:
 		return &skey{kind: []string{"NEW", "OLD", "RECENT"}[pick(t, "rk2", 3)]}
 	case 13:
-		return &skey{kind: "NOT", kids: []*skey{genKey(t, depth+1, nmsgs, maxuid)}}
+		return &skey{kind: "NOT", kids: []*skey{genKey(t, depth+1, nmsgs, maxuid, sizes)}}
 	case 14:
-		return &skey{kind: "OR", kids: []*skey{genKey(t, depth+1, nmsgs, maxuid), genKey(t, depth+1, nmsgs, maxuid)}}
+		return &skey{kind: "OR", kids: []*skey{genKey(t, depth+1, nmsgs, maxuid, sizes), genKey(t, depth+1, nmsgs, maxuid, sizes)}}
 	default:
-		return &skey{kind: "AND", kids: []*skey{genKey(t, depth+1, nmsgs, maxuid), genKey(t, depth+1, nmsgs, maxuid)}}
+		return &skey{kind: "AND", kids: []*skey{genKey(t, depth+1, nmsgs, maxuid, sizes), genKey(t, depth+1, nmsgs, maxuid, sizes)}}
 	}
 }
 
@@ -443,6 +453,20 @@ func cmpDay(kind string, d, ref time.Time) bool {
 	}
 }
 
+// usesSent: SENTBEFORE/SENTON/SENTSINCE compare the Date header; what they
+// mean for a message without one is not defined by the RFC.
+func (k *skey) usesSent() bool {
+	if strings.HasPrefix(k.kind, "SENT") {
+		return true
+	}
+	for _, c := range k.kids {
+		if c.usesSent() {
+			return true
+		}
+	}
+	return false
+}
+
 func (k *skey) usesSeq() bool {
 	if k.kind == "SEQ" {
 		return true
@@ -518,6 +542,12 @@ func genSection(t *rapid.T) (req, key string, f func(m *msg) ([]byte, bool), see
 	}
 	if off >= 0 {
 		class += "+partial"
+	}
+	if off > 1<<32-1 {
+		// the origin octet of the response is a 32-bit number (RFC 3501/9051
+		// "number"): what a server echoes for a larger offset is not defined,
+		// such requests are only required not to take the connection down
+		key = ""
 	}
 	f = func(m *msg) ([]byte, bool) {
 		b, ok := section(m.p, path, spec, fields)
